@@ -97,11 +97,11 @@ func (c *cctpModel) deposit(ctx context.Context, r cctpReq) error {
 		return errors.New("burning denom is not supported")
 	}
 	coin := sdk.NewCoin(r.burnToken, r.amount)
-	if err := c.l.move(from, cctpModuleAddr, sdk.NewCoins(coin)); err != nil {
+	if err := c.l.moveIn(ctx, from, cctpModuleAddr, sdk.NewCoins(coin)); err != nil {
 		return err
 	}
 	// burn: the module's coins and the supply disappear
-	c.l.Set(cctpModuleAddr, r.burnToken, c.l.Bal(cctpModuleAddr, r.burnToken).Sub(r.amount))
+	c.l.setIn(ctx, cctpModuleAddr, r.burnToken, c.l.balIn(ctx, cctpModuleAddr, r.burnToken).Sub(r.amount))
 	if c.burned.IsNil() {
 		c.burned = math.ZeroInt()
 	}
@@ -163,7 +163,7 @@ func (h *hypModel) Token(_ context.Context, req *warptypes.QueryTokenRequest) (*
 	return &warptypes.QueryTokenResponse{Token: &warptypes.WrappedHypToken{OriginDenom: h.originDenom, TokenType: h.tokenType}}, nil
 }
 
-func (h *hypModel) RemoteTransfer(_ context.Context, m *warptypes.MsgRemoteTransfer) (*warptypes.MsgRemoteTransferResponse, error) {
+func (h *hypModel) RemoteTransfer(ctx context.Context, m *warptypes.MsgRemoteTransfer) (*warptypes.MsgRemoteTransferResponse, error) {
 	if h.panics && verif.Bool("warp-panics") {
 		h.failed++
 		panic(verif.Injected{What: "warp message server panicked"})
@@ -181,7 +181,7 @@ func (h *hypModel) RemoteTransfer(_ context.Context, m *warptypes.MsgRemoteTrans
 	}
 	// RemoteTransferCollateral: sdk.NewCoin panics on a negative amount, gasLimit.IsZero() on a nil Int,
 	// sdk.NewCoins(maxFee) on an invalid coin
-	if err := h.l.move(sender, warpModuleAddr, sdk.NewCoins(sdk.NewCoin(h.originDenom, m.Amount))); err != nil {
+	if err := h.l.moveIn(ctx, sender, warpModuleAddr, sdk.NewCoins(sdk.NewCoin(h.originDenom, m.Amount))); err != nil {
 		return nil, err
 	}
 	_ = m.GasLimit.IsZero()
@@ -223,7 +223,7 @@ func (h *internalModel) Send(ctx context.Context, msg *banktypes.MsgSend) (*bank
 			return nil, errors.New("recipient is not allowed to receive funds")
 		}
 	}
-	if err := h.l.move(from, to, msg.Amount); err != nil {
+	if err := h.l.moveIn(ctx, from, to, msg.Amount); err != nil {
 		return nil, err
 	}
 	h.reqs = append(h.reqs, msg)
@@ -295,7 +295,7 @@ func (a *ics20) recv(ctx sdk.Context, p channeltypes.Packet) error {
 				return errors.New("receiver is not allowed to receive funds")
 			}
 		}
-		if err := a.l.move(escrow, receiver, sdk.NewCoins(token)); err != nil {
+		if err := a.l.moveIn(ctx, escrow, receiver, sdk.NewCoins(token)); err != nil {
 			return err
 		}
 		a.credited, a.creditTo = token, receiver
@@ -303,8 +303,8 @@ func (a *ics20) recv(ctx sdk.Context, p channeltypes.Packet) error {
 	}
 	// sender chain is the source: mint a voucher
 	voucher := sdk.Coin{Denom: "ibc/VOUCHER", Amount: amt}
-	a.l.Set(transferModuleAddr, voucher.Denom, a.l.Bal(transferModuleAddr, voucher.Denom).Add(amt))
-	if err := a.l.move(transferModuleAddr, receiver, sdk.Coins{voucher}); err != nil {
+	a.l.setIn(ctx, transferModuleAddr, voucher.Denom, a.l.balIn(ctx, transferModuleAddr, voucher.Denom).Add(amt))
+	if err := a.l.moveIn(ctx, transferModuleAddr, receiver, sdk.Coins{voucher}); err != nil {
 		return err
 	}
 	a.credited, a.creditTo = voucher, receiver
@@ -368,7 +368,7 @@ func newWorldCustom(faults bool, extra orbitertypes.ActionController) *World {
 	w := &World{}
 	ctx, svc := verif.NewEnv()
 	w.Ctx = verif.SDKContext(ctx)
-	w.L = &Ledger{faults: faults}
+	w.L = &Ledger{faults: faults, root: w.Ctx}
 	w.Ev = &events{faults: faults}
 	cdc := newCodec()
 	w.K = keeper.NewKeeper(cdc, addrCodec{}, nopLogger{}, w.Ev, svc, authorityAddr.String(), w.L)
